@@ -81,7 +81,7 @@ Proof.
   - now apply MonLive_step.
 Qed.
 
-Lemma AllInv_init scripts started s0 v0 : 0 <= v0 -> AllInv s0 v0 (init scripts started s0 v0).
+Lemma AllInv_init scripts results started s0 v0 : 0 <= v0 -> AllInv s0 v0 (init scripts results started s0 v0).
 Proof.
   intros Hv. constructor; unfold init.
   - intros t. cbn. exact I.
@@ -99,10 +99,10 @@ Proof.
   - intros Hf. cbn in Hf. discriminate.
 Qed.
 
-Definition reach (scripts : tid -> list libcall) (started : tid -> bool) (s0 : bool) (v0 : Z) (sched : list move) : world :=
-  run (init scripts started s0 v0) sched.
+Definition reach (scripts : tid -> list libcall) (results : tid -> Z) (started : tid -> bool) (s0 : bool) (v0 : Z) (sched : list move) : world :=
+  run (init scripts results started s0 v0) sched.
 
-Lemma AllInv_reach scripts started s0 v0 sched : 0 <= v0 -> AllInv s0 v0 (reach scripts started s0 v0 sched).
+Lemma AllInv_reach scripts results started s0 v0 sched : 0 <= v0 -> AllInv s0 v0 (reach scripts results started s0 v0 sched).
 Proof.
   intros Hv. unfold reach. apply run_inv.
   - intros w mv. apply AllInv_step.
@@ -110,10 +110,10 @@ Proof.
 Qed.
 
 Section Statements.
-Variables (scripts : tid -> list libcall) (started : tid -> bool) (s0 : bool) (v0 : Z) (sched : list move).
+Variables (scripts : tid -> list libcall) (results : tid -> Z) (started : tid -> bool) (s0 : bool) (v0 : Z) (sched : list move).
 Hypothesis Hv0 : 0 <= v0.
-Let w := reach scripts started s0 v0 sched.
-Let HA : AllInv s0 v0 w := AllInv_reach scripts started s0 v0 sched Hv0.
+Let w := reach scripts results started s0 v0 sched.
+Let HA : AllInv s0 v0 w := AllInv_reach scripts results started s0 v0 sched Hv0.
 
 (* a thread that is at a program point whose pending call is not a condition wait is running *)
 Lemma running_at (t : tid) : pc (tc w t) <> Idle -> (forall c m dl, pending (pc (tc w t)) <> PCondWait c m dl) -> st (ps w) t = TRun.
